@@ -1,4 +1,6 @@
 SPECIFICATION TraceSpec
-CONSTANT QKeySlashIsComment = FALSE
+CONSTANTS
+ ModeSet = "all64"
+ QKeySlashIsComment = FALSE
 POSTCONDITION TraceAccepted
 CHECK_DEADLOCK FALSE
